@@ -170,7 +170,7 @@ var (
 	effects = map[int]string{1: "Scroll up;100;0"}
 	titles  = map[int]string{1: "My title", 2: "Other: with colon"}
 	colls   = map[int]string{1: "Normal"}
-	notes   = map[int]string{1: "first comment", 2: "second; comment: x"}
+	notes   = map[int]string{1: "first comment", 2: "second; comment: x", 3: "Data: 0,e,payload of an unknown section"}
 	fxs     = map[int]string{1: `{\i1}`, 2: `{\pos(400,570)}`}
 )
 var textPools = []map[int]string{
